@@ -196,6 +196,12 @@ func BuildPathTable(fn *ssa.Function, opts PathOpts) *PathTable {
 					// evaluate loads eagerly so that later stores do not change them
 					st.vals[x] = st.term(x)
 				}
+			case *ssa.Lookup:
+				lt := st.term(x)
+				st.vals[x] = lt
+				if _, isMap := x.X.Type().Underlying().(*types.Map); isMap {
+					st.effects = append(st.effects, Effect{"lookup", lt, x.Pos()})
+				}
 			case *ssa.Return:
 				p := Path{Atoms: st.atoms, Effects: st.effects, Exit: "return", Looped: st.looped, Pos: x.Pos(), Mem: st.mem}
 				for _, r := range x.Results {
@@ -509,6 +515,25 @@ func (s *pstate) term(v ssa.Value) string {
 		return x.Op.String() + s.term(x.X)
 	case *ssa.BinOp:
 		l, r := s.term(x.X), s.term(x.Y)
+		if (x.Op == token.EQL || x.Op == token.NEQ) && (l == "nil" || r == "nil") {
+			other := l
+			if l == "nil" {
+				other = r
+			}
+			switch {
+			case other == "nil":
+				if x.Op == token.EQL {
+					return "true"
+				}
+				return "false"
+			case strings.HasPrefix(other, "fmt.Errorf(") || strings.HasPrefix(other, "errors.New(") || strings.HasPrefix(other, "&local:complit") || strings.HasPrefix(other, "&local:new"):
+				// freshly constructed values are never nil
+				if x.Op == token.EQL {
+					return "false"
+				}
+				return "true"
+			}
+		}
 		if (x.Op == token.EQL || x.Op == token.NEQ) && isLiteralTerm(l) && isLiteralTerm(r) {
 			if (l == r) == (x.Op == token.EQL) {
 				return "true"
